@@ -19,6 +19,7 @@ Term grammar (nested tuples):
   ('loop', var)                     value carried around a loop (not expanded)
 """
 import ast
+import os
 
 from .dataflow import key, varkey, unawait, strip_await
 from .fold import Unfoldable, _FrozenDict
@@ -88,6 +89,12 @@ class Terms(object):
                 strong = [d for d in ds if d.kind in ("assign", "aug")]
                 if ds and len(strong) == len(ds):
                     return self._from_defs(func, node, k, ds, env, depth)
+                weak = sorted(set(d.node.id for d in ds if d.kind == "callmut"))
+                if weak and os.environ.get("SA_NO_VERSIONS") != "1":
+                    # the attribute may have been modified by a call since function entry: a read here is not the same
+                    # value as a read before that call (snapshot vs. current value)
+                    base = self.term(func, node, e.value, env, depth)
+                    return ("ver", self.attr(base, e.attr, depth), tuple(weak))
             base = self.term(func, node, e.value, env, depth)
             return self.attr(base, e.attr, depth)
         if isinstance(e, ast.BinOp):
@@ -312,19 +319,39 @@ class Terms(object):
                     return ("NOT32", x)
         if op == "-" and is_c(a, M32):
             return ("NOT32", b)
-        # printf-style bytes/str formatting with %s placeholders only
+        # printf-style bytes/str formatting: %s (and, for text, %d / %i of an int(...) value) without flags or widths
         if op == "%" and a[0] == "c" and isinstance(a[1], (bytes, str)):
             args = list(b[1:]) if b[0] == "tuple" else [b]
-            pct = b"%s" if isinstance(a[1], bytes) else "%s"
-            pieces = a[1].split(pct)
-            other = (b"%" if isinstance(a[1], bytes) else "%")
-            if len(pieces) == len(args) + 1 and not any(other in p for p in pieces):
-                parts = []
-                for i, p in enumerate(pieces):
-                    if p:
-                        parts.append(C(p))
-                    if i < len(args):
-                        parts.append(args[i])
+            is_b = isinstance(a[1], bytes)
+            text = a[1].decode("latin-1") if is_b else a[1]
+            parts, buf, i, k, okf = [], "", 0, 0, True
+            while i < len(text):
+                ch = text[i]
+                if ch != "%":
+                    buf += ch
+                    i += 1
+                    continue
+                spec = text[i + 1] if i + 1 < len(text) else ""
+                if spec == "%":
+                    buf += "%"
+                    i += 2
+                    continue
+                if k >= len(args) or spec not in ("s", "d", "i") or (is_b and spec != "s"):
+                    okf = False
+                    break
+                arg = args[k]
+                if spec in ("d", "i") and not ((arg[0] == "call" and arg[1] == "builtins.int") or (arg[0] == "c" and isinstance(arg[1], int) and not isinstance(arg[1], bool))):
+                    okf = False       # %d of a non-int value truncates / raises: not the same text as str()
+                    break
+                if buf:
+                    parts.append(C(buf.encode("latin-1") if is_b else buf))
+                    buf = ""
+                parts.append(arg if is_b else ("STR", arg))
+                k += 1
+                i += 2
+            if okf and k == len(args):
+                if buf:
+                    parts.append(C(buf.encode("latin-1") if is_b else buf))
                 return self.concat(parts)
             return ("op", "%fmt", a, b)
         if op == "+":
@@ -616,6 +643,8 @@ def show(t, depth=0):
         return str(t[1])
     if k == "attr":
         return "%s.%s" % (show(t[1]), t[2])
+    if k == "ver":
+        return "%s@after-call" % show(t[1])
     if k == "phi":
         return "PHI{" + " | ".join(sorted(show(a) for a in t[1])) + "}"
     if k == "op":
@@ -628,3 +657,56 @@ def show(t, depth=0):
     if k in ("tuple", "list", "CONCAT"):
         return k + "(" + ", ".join(show(a) for a in t[1:]) + ")"
     return k + "(" + ", ".join(show(a) if isinstance(a, tuple) else repr(a) for a in t[1:]) + ")"
+
+
+def linear(t):
+    """Linear normal form of an integer-valued term: ({atom: coefficient}, constant).  LEN distributes over CONCAT, LEN of a
+    constant is its length, LEN of struct.pack(<constant format>, ...) is the format's size."""
+    import struct as _struct
+    k = t[0]
+    if k == "c" and isinstance(t[1], int) and not isinstance(t[1], bool):
+        return {}, t[1]
+    if k == "op" and t[1] in ("+", "-"):
+        a, ca = linear(t[2])
+        b, cb = linear(t[3])
+        sign = 1 if t[1] == "+" else -1
+        out = dict(a)
+        for x, v in b.items():
+            out[x] = out.get(x, 0) + sign * v
+        return {x: v for x, v in out.items() if v}, ca + sign * cb
+    if k == "LEN":
+        x = t[1]
+        if x[0] == "CONCAT":
+            out, c = {}, 0
+            for p in x[1:]:
+                a, ca = linear(("LEN", p))
+                for y, v in a.items():
+                    out[y] = out.get(y, 0) + v
+                c += ca
+            return {y: v for y, v in out.items() if v}, c
+        if x[0] == "op" and x[1] == "+":
+            return linear(("LEN", ("CONCAT", x[2], x[3])))
+        if x[0] == "c" and isinstance(x[1], (bytes, str, bytearray, tuple, list)):
+            return {}, len(x[1])
+        if x[0] == "call" and x[1] == "struct.pack" and x[2] and x[2][0][0] == "c":
+            try:
+                return {}, _struct.calcsize(x[2][0][1])
+            except Exception:   # noqa
+                pass
+        if x[0] == "call" and x[1] in ("builtins.bytes", "builtins.bytearray") and len(x[2]) == 1 and not x[3]:
+            return linear(("LEN", x[2][0]))
+    return {t: 1}, 0
+
+
+def lin_eq(a, b):
+    return linear(a) == linear(b)
+
+
+def lin_sub(a, b):
+    """linear(a) - linear(b) as a linear form."""
+    x, cx = linear(a)
+    y, cy = linear(b)
+    out = dict(x)
+    for k, v in y.items():
+        out[k] = out.get(k, 0) - v
+    return {k: v for k, v in out.items() if v}, cx - cy
